@@ -200,7 +200,7 @@ def run(pid: str, tier: str, seed: int, selftest=False, replay=None) -> int:
             descdom.append([d0, d1])
         img["dma"], img["memtop"], img["srctop"] = 1, memtop, srctop
         trivial = {"name": "f", "nv": 2, "ops": [dict(img["ops"][-1], a=[], r=[])], "args": [1, 2], "ty": ["m", "m"], "w": [0, 0],
-                   "sacc": ["", ""], "claims": [], "thr": 1, "logsetup": 0, "dma": 0, "memtop": 0, "srctop": 0, "allocsite": 0}
+                   "sacc": ["", ""], "claims": [], "thr": 1, "logsetup": 0, "dma": 0, "memtop": 0, "srctop": 0, "allocsite": 0, "track": 0}
         cases.append({"name": name, "A": trivial, "B": img, "argdom": [[900001], [900002]], "opqdom": [[0]], "descdom": descdom,
                       "extra": {"srcarg": 1, "dstarg": 2, "w": w}, "text": text, "after": str(fn), "types": info["types"]})
     rep.rule = (f"{n} generated memref.copy ops: rank 1-3, dims 1..8 (<= 64 elements), i8..i64, layouts none / strided (permuted, padded, static or dynamic "
